@@ -66,7 +66,7 @@ def run_shards(prop, shards, th, native, workdir, default_wd):
         sp.write_text(json.dumps(spec))
         env = build.child_env(th, native, spec.get("hashseed", 0), spec.get("env"))
         log = open(workdir / f"shard-{i}.log", "w")
-        p = subprocess.Popen([build.PY, "-m", "vf.worker", prop, str(sp)], env=env, stdout=log, stderr=subprocess.STDOUT, cwd=str(VERIF))
+        p = subprocess.Popen([build.PY, "-m", "vf.worker", prop, str(sp)], env=env, stdout=log, stderr=subprocess.STDOUT, cwd=str(VERIF), preexec_fn=build.die_with_parent)
         return (i, spec, p, time.time(), log)
 
     while pending or running:
